@@ -53,6 +53,9 @@ struct Sess {
     done: bool,
     client_has: Vec<bool>,
     client_choking: bool,
+    last_served: Option<(u32, u32, u32)>,
+    /// messages scripted before our own handshake went out (protocol-conformant peers only)
+    held: Vec<Msg>,
 }
 
 fn note(who: &str, what: String) {
@@ -127,6 +130,10 @@ impl Sess {
     }
 
     fn send(&mut self, m: &Msg) {
+        if !self.sent_hs && self.plan.hs != Hs::Absent && !matches!(m, Msg::Handshake { .. }) {
+            self.held.push(m.clone());
+            return;
+        }
         if !self.silent {
             note(&self.plan.name, format!("tx {}", brief(m)));
         }
@@ -177,6 +184,9 @@ impl Sess {
         let m = self.hs_msg();
         self.send(&m);
         self.advertise();
+        for m in std::mem::take(&mut self.held) {
+            self.send(&m);
+        }
     }
 
     fn advertise(&mut self) {
@@ -288,6 +298,7 @@ impl Sess {
                     self.client_has[i as usize] = true;
                 }
             }
+            Msg::Piece { index, begin, block } => self.last_served = Some((index, begin, block.len() as u32)),
             Msg::Choke => self.client_choking = true,
             Msg::Unchoke => self.client_choking = false,
             Msg::Cancel { index, begin, len } => {
@@ -404,6 +415,11 @@ impl Sess {
             Act::Silence => self.silent = true,
             Act::Resume => self.silent = false,
             Act::Request(i, b, l) => self.send(&Msg::Request { index: i, begin: b, len: l }),
+            Act::RepeatLast => {
+                if let Some((i, b, l)) = self.last_served {
+                    self.send(&Msg::Request { index: i, begin: b, len: l });
+                }
+            }
             Act::RequestOwned(k) => {
                 if self.client_choking {
                     return;
@@ -557,6 +573,8 @@ fn new_session(plan: Arc<PeerPlan>, sh: Arc<Shared>, has: Arc<Mutex<Vec<bool>>>,
         done: false,
         client_has: Vec::new(),
         client_choking: true,
+        last_served: None,
+        held: Vec::new(),
     }
 }
 
